@@ -21,17 +21,21 @@ INT_BASE = 0x100000
 def canon(a: int) -> int:
     """Canonical address of a byte access made by the *Python* core.
 
-    Each core is paired with the canonicalisation of its own project memory model (what the two memory
-    models do with out-of-range addresses is C11's subject, not the cores'): PCE500Memory documents
-    `address &= 0xFFFFFF; address >= 0x100000 -> internal[(address - 0x100000) & 0xFF]`, and the Python
-    lifter relies on it for internal-memory wrap-around (it emits INTERNAL_MEMORY_START + unwrapped offset).
-    The Rust harness bus uses MemoryImage's rule (24-bit wrap; [0x100000, 0x100100) internal; everything
-    else external modulo 1 MiB).  Both map into the same canonical space: 0..0xFFFFF external,
-    0x100000..0x1000FF internal."""
+    Canonical space: 0..0xFFFFF external, 0x100000..0x1000FF internal.  Bits 20-23 of an external pointer
+    are don't-care on the 20-bit bus (both project memory models drop them one way or another), so they are
+    dropped here as on the Rust harness bus.  One asymmetry is deliberate: the Python lifter forms internal
+    addresses as INTERNAL_MEMORY_START + *unwrapped* offset (n+BP+PX, multi-byte and counted forms) and
+    relies on PCE500Memory's documented `(address - 0x100000) & 0xFF` to wrap them, so raw addresses in
+    [0x100000, 0x101000) are taken as internal modulo 256.  Any access whose raw address is not already
+    canonical sets `noncanon` so that verdicts can classify the case as an address-wrap ("@edge") case."""
     a &= 0xFFFFFF
-    if a >= 0x100000:
+    if 0x100000 <= a < 0x101000:
         return 0x100000 + (a & 0xFF)
-    return a
+    return a & 0xFFFFF
+
+
+def is_canonical(a: int) -> bool:
+    return 0 <= a <= 0xFFFFF or 0x100000 <= a <= 0x1000FF
 
 
 class HashMemory:
@@ -44,6 +48,7 @@ class HashMemory:
         self.reads: List[int] = []
         self.log_reads = log_reads
         self.waits: List[int] = []
+        self.noncanon = False
 
     def peek(self, a: int) -> int:
         c = canon(a)
@@ -54,12 +59,16 @@ class HashMemory:
 
     # --- Memory protocol used by the evaluator / emulator ---
     def read_byte(self, address: int) -> int:
+        if not (0 <= address <= 0xFFFFF or 0x100000 <= address <= 0x1000FF):
+            self.noncanon = True
         if self.log_reads:
             self.reads.append(canon(address))
         return self.peek(address)
 
     def write_byte(self, address: int, value: int) -> None:
         assert 0 <= value < 256, "Value must be a byte (0-255)"
+        if not (0 <= address <= 0xFFFFF or 0x100000 <= address <= 0x1000FF):
+            self.noncanon = True
         c = canon(address)
         self.over[c] = value & 0xFF
         self.writes.append((c, value & 0xFF))
@@ -118,6 +127,7 @@ def step(emu: Any, mem: HashMemory, want_temps: bool = False, want_reads: bool =
     mem.writes = []
     mem.reads = []
     mem.waits = []
+    mem.noncanon = False
     pc = emu.regs.get(RegisterName.PC)
     out: Dict[str, Any] = {"pc": pc}
     try:
@@ -133,6 +143,8 @@ def step(emu: Any, mem: HashMemory, want_temps: bool = False, want_reads: bool =
         out["reads"] = list(mem.reads)
     if mem.waits:
         out["waits"] = list(mem.waits)
+    if mem.noncanon:
+        out["noncanon"] = True
     return out
 
 
